@@ -195,37 +195,68 @@ func (store *Store) Restore() error {
 	r := resp.NewReader(store.rw)
 	database := 0
 
+	// offset is the end of the last complete, well-formed record that was read.
+	var offset int64
+	// malformed is set when the log ends with an incomplete (torn) or malformed record.
+	malformed := false
+
 	for {
 		value, n, err := r.ReadValue()
-		if err != nil && err != io.EOF {
-			return err
+		if err == io.EOF && n == 0 {
+			// Break out when there are no more bytes to read.
+			break
+		}
+		if err != nil {
+			malformed = true
+			break
 		}
 		if n == 0 {
-			// Break out when there are no more bytes to read.
 			break
 		}
 
 		command, err := value.MarshalRESP()
 		if err != nil {
-			return err
+			malformed = true
+			break
 		}
 
 		// Decode command.
 		cmd, err := internal.Decode(command)
-		if err != nil {
-			return err
+		if err != nil || len(cmd) == 0 {
+			malformed = true
+			break
 		}
 		// If the command is a SELECT command, set the database value.
 		if strings.EqualFold(cmd[0], "select") {
+			if len(cmd) != 2 {
+				malformed = true
+				break
+			}
 			database, err = strconv.Atoi(cmd[1])
 			if err != nil {
-				return err
+				malformed = true
+				break
 			}
+			offset += int64(n)
 			// Restart the read loop.
 			continue
 		}
 
 		store.handleCommand(database, command)
+		offset += int64(n)
+	}
+
+	if malformed {
+		// The process died while the last record was being written. Everything before it has been
+		// restored; discard the incomplete tail so that records appended from now on are not
+		// preceded by garbage that would stop the next restore.
+		log.Printf("aof log: discarding incomplete or malformed data after byte %d\n", offset)
+		if err := store.rw.Truncate(offset); err != nil {
+			return fmt.Errorf("restore aof: truncate incomplete record: %v", err)
+		}
+		if _, err := store.rw.Seek(offset, 0); err != nil {
+			return fmt.Errorf("restore aof: %v", err)
+		}
 	}
 
 	return nil
